@@ -170,3 +170,187 @@ End Theorems.
 Print Assumptions c01_proved.
 Print Assumptions c18_proved.
 Print Assumptions c05_proved.
+
+(* ------------------------------------------------------------------------------------------ *)
+(* separately named facts *)
+Section Extras.
+  Context {T : Type} (tp : transport T cmsg resp).
+  Notation cstate := (@cstate T).
+  Implicit Types (s : cstate).
+
+  (* C01 (iii): a response whose id is not in flight changes nothing ... *)
+  Theorem unknown_id_frame s (r : resp) :
+    alookup (r_id r) (inflight s) = None -> complete s r = s.
+  Proof. intro H. unfold complete, complete_request. rewrite H. reflexivity. Qed.
+
+  (* ... but the transport and the call log of the poll in progress *)
+  Theorem unknown_id_frame_read s (x : resp) t :
+    fused s = false -> t_next tp (tr s) = (RItem x, t) -> alookup (r_id x) (inflight s) = None ->
+    pump_read tp s = (PSome tt, upd_tr s t false (plog s ++ [CNext (RItem x)])).
+  Proof.
+    intros Hf Hn Ha. unfold pump_read, do_next. rewrite Hf, Hn. f_equal.
+    apply unknown_id_frame. exact Ha.
+  Qed.
+
+  (* a request id has been handed out to the call *)
+  Definition issued (p : phase) : Prop := p <> PNew /\ p <> PGone.
+
+  Lemma sim_ids_unique_model m s i j ci cj :
+    sim m s -> nth_error (calls s) i = Some ci -> nth_error (calls s) j = Some cj ->
+    issued (c_phase ci) -> issued (c_phase cj) -> c_id ci = c_id cj -> i = j.
+  Proof.
+    intros S Hi Hj [Pi1 Pi2] [Pj1 Pj2] He.
+    eapply (sim_ids_unique m s i j ci cj); try eassumption; try apply S; apply mem_nat_In.
+    - apply (d_polled _ _ _ (sc_phase _ _ (sim_c _ _ S) _ _ Hi)). destruct (c_phase ci); try reflexivity; congruence.
+    - apply (d_polled _ _ _ (sc_phase _ _ (sim_c _ _ S) _ _ Hj)). destruct (c_phase cj); try reflexivity; congruence.
+  Qed.
+
+  (* C01 (i): in every reachable state (fewer than 2^64 ops) the request ids of distinct calls are
+     distinct, over any set of cloned handles *)
+  Theorem ids_unique (fuel_of : cstate -> nat) t0 qcap maxif (ops : list (@op T)) :
+    no_wrap ops ->
+    let s := snd (run_from tp fuel_of (init t0 qcap maxif) ops) in
+    forall i j ci cj,
+      nth_error (calls s) i = Some ci -> nth_error (calls s) j = Some cj ->
+      issued (c_phase ci) -> issued (c_phase cj) -> c_id ci = c_id cj -> i = j.
+  Proof.
+    intros Hw s.
+    destruct (run_sim tp fuel_of maxif ops m0 (init t0 qcap maxif)) as [m S];
+      [apply sim_init|exact Hw|].
+    intros i j ci cj. apply (sim_ids_unique_model m s); exact S.
+  Qed.
+
+  (* every queued and every in-flight request id has been handed out *)
+  Theorem ids_below_next (fuel_of : cstate -> nat) t0 qcap maxif (ops : list (@op T)) :
+    no_wrap ops ->
+    let s := snd (run_from tp fuel_of (init t0 qcap maxif) ops) in
+    (forall q, In q (queue s) -> q_id q < next_id s) /\
+    (forall id e, In (id, e) (inflight s) -> id < next_id s).
+  Proof.
+    intros Hw s.
+    destruct (run_sim tp fuel_of maxif ops m0 (init t0 qcap maxif)) as [m S];
+      [apply sim_init|exact Hw|].
+    split; [intros q; apply (sim_queue_lt m s q S)|intros id e; apply (sim_inflight_lt m s id e S)].
+  Qed.
+
+  (* ---------------------------------------------------------------- C05: prompt expiry *)
+  Lemma min_timer_some l b : min_timer l (Some b) <> None.
+  Proof.
+    revert b. induction l as [|[id w] r IH]; intros [bid bw]; cbn [min_timer]; [discriminate|].
+    destruct ((w <? bw) || ((w =? bw) && (id <? bid))); apply IH.
+  Qed.
+
+  Lemma min_timer_le l best id w :
+    min_timer l best = Some (id, w) ->
+    (forall id' w', In (id', w') l -> w <= w') /\ (forall bid bw, best = Some (bid, bw) -> w <= bw).
+  Proof.
+    revert best. induction l as [|[id0 w0] r IH]; intro best; cbn [min_timer].
+    - intros ->. split; [intros ? ? []|]. intros bid bw [= -> ->]. lia.
+    - destruct best as [[bid bw]|].
+      + destruct ((w0 <? bw) || ((w0 =? bw) && (id0 <? bid))) eqn:E; intro H; destruct (IH _ H) as [H1 H2].
+        * specialize (H2 _ _ eq_refl). split.
+          -- intros id' w' [[= <- <-]|Hin]; [exact H2|apply (H1 _ _ Hin)].
+          -- intros ? ? [= <- <-]. lia.
+        * specialize (H2 _ _ eq_refl). split.
+          -- intros id' w' [[= <- <-]|Hin]; [lia|apply (H1 _ _ Hin)].
+          -- intros ? ? [= <- <-]. exact H2.
+      + intro H. destruct (IH _ H) as [H1 H2]. specialize (H2 _ _ eq_refl). split.
+        * intros id' w' [[= <- <-]|Hin]; [exact H2|apply (H1 _ _ Hin)].
+        * discriminate.
+  Qed.
+
+  Lemma poll_expired_none s s' :
+    poll_expired s = (None, s') -> s' = s /\ forall id w, In (id, w) (timers s) -> now s < w.
+  Proof.
+    unfold poll_expired. destruct (min_timer (timers s) None) as [[id w]|] eqn:Em.
+    - destruct (w <=? now s) eqn:Ew.
+      + destruct (alookup id (inflight (upd_if s (inflight s) (aremove id (timers s))))); discriminate.
+      + intros [= <-]. split; [reflexivity|]. intros id' w' Hin.
+        destruct (min_timer_le _ _ _ _ Em) as [H _]. specialize (H _ _ Hin). lia.
+    - intros [= <-]. split; [reflexivity|]. intros id' w' Hin.
+      destruct (timers s) as [|[a b] r]; [destruct Hin|]. cbn [min_timer] in Em.
+      exfalso. eapply min_timer_some; exact Em.
+  Qed.
+
+  Definition no_expired s : Prop := forall id w, In (id, w) (timers s) -> now s < w.
+
+  Lemma pump_write_idle s wr s' :
+    pump_write tp s = (wr, s') -> wr = PNone \/ wr = PPend -> no_expired s'.
+  Proof.
+    unfold pump_write.
+    destruct (poll_write_request tp s) as [r1 s1].
+    assert (D : forall (x : pres unit) (y : cstate) (P : Prop),
+               (x = PNone \/ x = PPend -> False) -> (x, y) = (wr, s') -> wr = PNone \/ wr = PPend -> P).
+    { intros x y P Hx [= <- <-] H. destruct (Hx H). }
+    destruct r1 as [u| | |a];
+      try (apply D; intros [H|H]; discriminate);
+      (destruct (poll_write_cancel tp s1) as [r2 s2];
+       destruct r2 as [u| | |a]; try (apply D; intros [H|H]; discriminate);
+       (destruct (poll_expired s2) as [e s3] eqn:E3;
+        destruct e; try (apply D; intros [H|H]; discriminate);
+        apply poll_expired_none in E3; destruct E3 as [E3 Hn]; subst s3;
+        first [ unfold do_close; destruct (t_close tp (tr s2)) as [c t];
+                destruct c; intros E _; injection E as _ <-; exact Hn
+              | unfold do_flush; destruct (t_flush tp (tr s2)) as [c t];
+                destruct c; intros E _; injection E as _ <-; exact Hn ])).
+  Qed.
+
+  Lemma run_loop_pending f s s' : run_loop tp f s = (RunPending, s') -> no_expired s'.
+  Proof.
+    revert s. induction f as [|f IH]; intro s; cbn [run_loop]; [discriminate|].
+    destruct (pump_read tp s) as [rd s1].
+    destruct rd as [u| | |a]; try discriminate;
+      (destruct (pump_write tp s1) as [wr s2] eqn:E2;
+       destruct wr as [u'| | |a']; try discriminate; try apply IH;
+       try (destruct (Nat.eqb (length (inflight s2)) 0); try discriminate; try apply IH);
+       try (intros E; injection E as <-; apply (pump_write_idle _ _ _ E2); auto)).
+  Qed.
+
+  (* terminal is set only by poll_dispatch itself *)
+  Lemma terminal_release_permit s : terminal (release_permit s) = terminal s.
+  Proof. unfold release_permit. destruct (waiters s); rewrite ?set_phase_alt; reflexivity. Qed.
+  Lemma terminal_q_poll_recv s : terminal (snd (q_poll_recv s)) = terminal s.
+  Proof.
+    unfold q_poll_recv. destruct (queue s); cbn [snd].
+    - destruct (Nat.eqb (senders s) 0); [reflexivity|].
+      destruct (rx_closed s && Nat.eqb (assigned_count s) 0); reflexivity.
+    - rewrite terminal_release_permit. reflexivity.
+  Qed.
+  Lemma terminal_slot_send s id o : terminal (slot_send s id o) = terminal s.
+  Proof. rewrite slot_send_alt. reflexivity. Qed.
+  Lemma terminal_drain_loop f a s : terminal (snd (drain_loop f a s)) = terminal s.
+  Proof.
+    revert s. induction f as [|f IH]; intro s; cbn [drain_loop]; [reflexivity|].
+    pose proof (terminal_q_poll_recv s) as H. destruct (q_poll_recv s) as [r s1]. cbn [snd] in H.
+    destruct r; cbn [snd]; try exact H. rewrite IH, terminal_slot_send. exact H.
+  Qed.
+  Lemma terminal_shut_down s a : terminal (snd (shut_down s a)) = terminal s.
+  Proof.
+    unfold shut_down. rewrite terminal_drain_loop. unfold complete_all.
+    assert (F : forall (l : list (N * ifentry)) (x : cstate),
+              terminal (fold_left (fun acc p => slot_send acc (fst p) (OConnErr a)) l x) = terminal x).
+    { induction l as [|p r IH]; intro x; cbn [fold_left]; [reflexivity|]. rewrite IH. apply terminal_slot_send. }
+    rewrite F. cbn [terminal upd_if]. unfold q_close. destruct (rx_closed s); [reflexivity|].
+    rewrite fold_set_phase_alt. reflexivity.
+  Qed.
+
+  (* C05 (c): when a poll of the dispatch returns Pending without a fatal transport error, every
+     expired timer has been fired: no remaining timer is due *)
+  Theorem expiry_prompt fuel s s' :
+    poll_dispatch tp fuel s = (DPending, s') -> terminal s' = None ->
+    forall id w, In (id, w) (timers s') -> now s' < w.
+  Proof.
+    unfold poll_dispatch. destruct (terminal s) as [a|] eqn:Et.
+    - pose proof (terminal_shut_down s a) as H. destruct (shut_down s a) as [b s1]. cbn [snd] in H.
+      destruct b; intros [= <-] Hn; congruence.
+    - destruct (run_loop tp fuel s) as [r s1] eqn:Er. destruct r as [|a| |]; try discriminate.
+      + pose proof (terminal_shut_down (upd_term s1 (Some a)) a) as H.
+        destruct (shut_down (upd_term s1 (Some a)) a) as [b s3]. cbn [snd] in H.
+        destruct b; intros [= <-] Hn; cbn in H; congruence.
+      + intros [= <-] _. eapply run_loop_pending. exact Er.
+  Qed.
+End Extras.
+
+Print Assumptions unknown_id_frame.
+Print Assumptions ids_unique.
+Print Assumptions expiry_prompt.
